@@ -375,6 +375,22 @@ def run(ctx: Ctx) -> None:
                 if n0 is not None and n0 > 0 and n is not None and (n < n0):
                     ctx.violation(f"rest-of-the-log-not-received-after:{what}", f"{what} at message {k} of a log of system {name} being replayed: {n} messages handled, {n0} without it "
                                   "(-1: the replay never finished)", {"system": name, "k": k, "what": what, "handled": n, "handled_without": n0, "lines": lines}, "history")
+    # "still able to send" after traffic of ANOTHER system: a neighbour controller's sync announcement is heard once (its next one never); frames
+    # offered for writing afterwards reach the port (the serial transport's own write path, on a virtual clock: see C11's sync_run)
+    from . import c11 as _c11  # noqa: PLC0415
+    for rem in (0.5, 0.0, 30.0):
+        offers = [1.0 + rem + 0.3, 1.0 + rem + 5.0, 1.0 + rem + 200.0]
+        try:
+            res = _c11.sync_run([(1.0, "01:999999", rem)], offers)
+        except Exception as err:  # noqa: BLE001
+            ctx.violation(f"harness:sync-run-raises:{type(err).__name__}", str(err)[:200], {"remaining": rem}, "history")
+            continue
+        ctx.case(("foreign-sync", rem), True, "history:foreign-sync-announcement-then-send")
+        for off, wr in res:
+            if wr is None or wr - off > 1.0:
+                ctx.violation("foreign-traffic-stops-sending", f"after a neighbour controller's I|1F09 (sync in {rem} s, never followed up) a frame offered at {off:.1f} s "
+                              + ("never reached the port" if wr is None else f"reached the port {wr - off:.1f} s later"),
+                              {"announcement": ["01:999999", 1.0, rem], "offered_at": off, "written_at": wr}, "history")
     # foreign traffic
     n_for = 60 if thorough else 12
     for i in range(n_for):
